@@ -228,6 +228,8 @@ def run(facts, tier, ctx):
     # prefix clause: the bytes a frame forwards from its scratch sinks are this frame's bits only - the scratch is cleared
     # before use, so a write that failed earlier on the thread leaves nothing behind (C10 RESET, C08 effect)
     from . import c10, c08
-    extra = [r for r in c10.run(facts, tier, ctx) if r.rule == "RESET"]
+    # ... and no storage is re-entered while borrowed: a second `borrow_mut` on the error path of a sink write turns the
+    # sink's error into a BorrowMutError panic (C10 LOCKORDER)
+    extra = [r for r in c10.run(facts, tier, ctx) if r.rule in ("RESET", "LOCKORDER")]
     extra += [r for r in c08.rule_effect(facts)]
     return [rr, inf, rule_prefix(facts), rule_overwritten(facts)] + extra
